@@ -115,7 +115,13 @@ func IntSpelling(t *rapid.T, v int) string {
 
 // FloatLit draws a float literal spelling.
 func FloatLit(t *rapid.T) string {
-	switch Weighted(t, "floatclass", 30, 20, 15, 15, 10, 10) {
+	switch Weighted(t, "floatclass", 30, 20, 15, 15, 10, 10, 6) {
+	case 6: // redundant leading zeros in front of any digits, fraction or exponent form
+		z := strings.Repeat("0", Int(t, 1, 2, "zeros"))
+		if Bool(t, "zfrac") {
+			return fmt.Sprintf("%s%d.%d", z, Int(t, 0, 199, "zip"), Int(t, 0, 99, "zfp"))
+		}
+		return fmt.Sprintf("%s%de%d", z, Int(t, 0, 99, "zm"), Int(t, 0, 3, "zx"))
 	case 0: // d.d
 		return fmt.Sprintf("%d.%d", Int(t, 0, 99, "ip"), Int(t, 0, 999, "fp"))
 	case 1: // exponent only
@@ -245,6 +251,7 @@ type LayoutOpts struct {
 	OnlyLF     bool // comments end in LF only, no CR anywhere (for cases that count lines independently)
 	NoInvalid  bool // no invalid UTF-8 in comments
 	NoLines    bool // never the line-structured style
+	PHuge      int  // percent of layouts in which one gap is many pages long
 }
 
 func genComment(t *rapid.T, o LayoutOpts) string {
@@ -366,6 +373,16 @@ func GenLayout(t *rapid.T, toks []Tok, o LayoutOpts) Layout {
 	for i := 0; i <= len(toks); i++ {
 		need := i > 0 && i < len(toks) && NeedSep(toks[i-1], toks[i])
 		g[i] = GenGap(t, need, i == len(toks), o)
+	}
+	if o.PHuge > 0 && Chance(t, o.PHuge, "hugegap") {
+		// one single comment or one uninterrupted run of blanks of many pages
+		n := Pick(t, "hugesize", []int{5000, 66000, 70000, 140000})
+		i := Uniform(t, len(g), "hugeat")
+		if Bool(t, "hugecomment") && !o.NoComments {
+			g[i] = g[i] + "#" + strings.Repeat("h", n) + "\n"
+		} else {
+			g[i] = g[i] + strings.Repeat(Pick(t, "hugews", []string{" ", "\t", "\n"}), n)
+		}
 	}
 	return Layout{g}
 }
